@@ -353,4 +353,10 @@ def r9_7(ctx):
     borrow(ctx, r5_8, "R5.8", "R9.7", " [text rendered at its reported maximum fits it only if truncate / align measure in cells]")
 
 
-RULES = [r9_1, r9_2, r9_3, r9_4, r9_5, r9_6, r9_7]
+def r9_8(ctx):
+    from .c07 import r7_8
+    from .common import borrow
+    borrow(ctx, r7_8, "R7.8", "R9.8", " [a table rendered at the width it reports never exceeds it: the padding target of the column widths is bounded by the available width]")
+
+
+RULES = [r9_1, r9_2, r9_3, r9_4, r9_5, r9_6, r9_7, r9_8]
